@@ -293,6 +293,9 @@ class Program:
             c = callee_of(t)
             if c:
                 out.add(c)
+            br = self.bridge(t)
+            if br:
+                out.add(br)
             # fn items / closures passed as arguments
             for a in t["args"]:
                 if a.get("k") == "const" and a.get("fn"):
@@ -308,6 +311,21 @@ class Program:
                 if rv["k"] == "use" and rv["o"].get("fn"):
                     out.add(rv["o"].get("fn_resolved") or rv["o"]["fn"])
         return out
+
+    def bridge(self, t):
+        """blanket impls in core that forward to a workspace impl: T::try_into() -> <U as TryFrom<T>>::try_from,
+        T::into() -> <U as From<T>>::from, T::to_string() -> <T as Display>::fmt"""
+        r = t.get("resolved") or ""
+        ga = t.get("gargs") or []
+        def nm(g):
+            return g.get("s") or g.get("p")
+        if r == "<T as std::convert::TryInto<U>>::try_into" and len(ga) == 2:
+            c = "<%s as std::convert::TryFrom<%s>>::try_from" % (nm(ga[1]), nm(ga[0]))
+            return c if c in self.bodies else None
+        if r == "<T as std::convert::Into<U>>::into" and len(ga) == 2:
+            c = "<%s as std::convert::From<%s>>::from" % (nm(ga[1]), nm(ga[0]))
+            return c if c in self.bodies else None
+        return None
 
     def closure(self, entries):
         """Call-graph closure over workspace bodies (paths)."""
